@@ -89,3 +89,6 @@ func PanicClass(e interface{}) string {
 	}
 	return "Other"
 }
+
+// Flush writes buffered records to the file (used before a step that may crash the process).
+func (o *Out) Flush() { o.w.Flush() }
